@@ -184,7 +184,7 @@ def audit_sources():
 THEOREM_RE = re.compile(r"^\s*(Theorem|Lemma|Corollary|Example)\s+([A-Za-z0-9_']+)", re.M)
 
 
-def prove_property(pid):
+def prove_property(pid, thorough=False):
     """Build the dependencies of Properties/<pid>.v with make, then run coqc on the property
     file itself so that its Print Assumptions output is captured on every run.
     Returns dict(obligations=[names], discharged=[names], failed=str|None, assumptions={name: text})."""
@@ -234,6 +234,25 @@ def prove_property(pid):
         res["failed"] = "assumption audit failed: " + "; ".join(bad)
         return res
     res["discharged"] = list(names)
+    if thorough:
+        # independent re-check of the compiled property file and everything it depends on
+        with Lock("coq"):
+            rc, out = sh(["timeout", "1700", "make", "-j%d" % NCPU, "Properties/%s.vo" % pid], cwd=COQ,
+                         timeout=1800)
+            if rc == 0:
+                rc, out = sh(["timeout", "1700", "coqchk", "-o", "-silent", "-Q", ".", "RV",
+                              "RV.Properties.%s" % pid], cwd=COQ, timeout=1800)
+        res["coqchk"] = out[-1500:]
+        m = re.search(r"\* Axioms:\s*(.*?)\n\s*\n", out, re.S)
+        axioms = m.group(1).strip() if m else "?"
+        clean = (rc == 0 and axioms == "<none>"
+                 and all(re.search(r"\* %s: <none>" % re.escape(k), out) for k in (
+                     "Constants/Inductives relying on type-in-type",
+                     "Constants/Inductives relying on unsafe (co)fixpoints",
+                     "Inductives whose positivity is assumed")))
+        if not clean:
+            res["failed"] = "coqchk does not confirm %s: rc=%d axioms=%s\n%s" % (pid, rc, axioms, out[-1500:])
+            res["discharged"] = []
     return res
 
 
@@ -380,6 +399,7 @@ class Ctx:
             "trusted_base": self.trusted or default_trusted(),
             "obligation_names": ob,
             "assumptions_printed": (self.proof or {}).get("assumptions", {}),
+            "coqchk": (self.proof or {}).get("coqchk", "not run in the quick tier (thorough runs coqchk -o on the property file)"),
             "evaluations": self.evaluations,
             "distinct_nontrivial": len(self.nontrivial),
             "rule": self.rule,
@@ -421,7 +441,7 @@ def prepare(ctx, need_bins=False):
     if need_bins:
         build_repo_bins()
     bad = audit_sources()
-    ctx.proof = prove_property(ctx.pid)
+    ctx.proof = prove_property(ctx.pid, ctx.thorough)
     if bad:
         ctx.proof["failed"] = "source audit: " + "; ".join(bad[:10])
         ctx.proof["discharged"] = []
